@@ -26,32 +26,32 @@ type LoopSpec struct {
 }
 
 type Contract struct {
-	Key      string // full function key
-	Pkg      string
-	File     string
-	Line     int
-	Props    []string
-	Requires []Clause
-	Ensures  []Clause
-	Loops    map[int]*LoopSpec
-	Modifies []string
-	HasMod   bool
-	NoPanic  bool
-	Pure     bool
-	Trusted  bool // contract is assumed, body not verified (must be listed as assumption)
-	Inline   bool
-	Lemmas   []Clause
-	Ghost    []string
-	Opts     map[string]string
-	WriteSites []WriteSite
+	Key          string // full function key
+	Pkg          string
+	File         string
+	Line         int
+	Props        []string
+	Requires     []Clause
+	Ensures      []Clause
+	Loops        map[int]*LoopSpec
+	Modifies     []string
+	HasMod       bool
+	NoPanic      bool
+	Pure         bool
+	Trusted      bool // contract is assumed, body not verified (must be listed as assumption)
+	Inline       bool
+	Lemmas       []Clause
+	Ghost        []string
+	Opts         map[string]string
+	WriteSites   []WriteSite
 	ReplayAssume []Clause
 }
 
 type ContractSet struct {
 	ByKey   map[string]*Contract
-	SMT     []smtBlock          // file-level SMT definitions
-	Binds   map[string]string   // interface type path -> implementing keeper package path
-	PureIfc map[string]bool     // interface types whose methods are pure getters
+	SMT     []smtBlock        // file-level SMT definitions
+	Binds   map[string]string // interface type path -> implementing keeper package path
+	PureIfc map[string]bool   // interface types whose methods are pure getters
 	Files   []string
 	Consts  map[string]string
 }
